@@ -53,7 +53,11 @@ func init() {
 	sh("C03", 90, 1200, runner.Part{Scenario: "simhost", Params: p("ppartition", "10", "pcrash", "8", "ops", "8"), Share: 2},
 		runner.Part{Scenario: "simhost", Params: p("pmember", "10", "ptransfer", "10"), Share: 1},
 		// campaigns (timeouts and leadership transfers) of replicas whose apply lags behind committed membership changes
-		runner.Part{Scenario: "simhost", Params: p("pmember", "25", "ptransfer", "30", "hosts", "4", "smyield", "300"), Share: 1})
+		runner.Part{Scenario: "simhost", Params: p("pmember", "25", "ptransfer", "30", "hosts", "4", "smyield", "300"), Share: 1},
+		// elections while a membership change is between the state machine's applied index and the raft core's update
+		runner.Part{Scenario: "simhost", Params: p("pmember", "30", "memberbias", "3", "hosts", "5", "voters", "4", "ccwindow", "60", "holdlen", "600", "smyield", "100", "election", "5", "ticknum", "1", "tickden", "4", "ppartition", "0", "pheal", "3", "pdrop", "0", "pcrash", "0", "pstall", "0", "checkquorum", "0", "prevote", "0", "readmix", "10", "clients", "3", "ops", "40", "steps", "2500"), Share: 1},
+		// ... and between a recovered snapshot's applied index and the membership restore: lagging followers, members added meanwhile
+		runner.Part{Scenario: "simhost", Params: p("pmember", "30", "hosts", "5", "voters", "3", "snapshot", "5", "overhead", "0", "ccwindow", "80", "holdlen", "800", "smyield", "100", "election", "5", "ticknum", "1", "tickden", "4", "ppartition", "8", "pheal", "3", "pdrop", "0", "pcrash", "0", "pstall", "0", "checkquorum", "0", "prevote", "0", "readmix", "10", "clients", "1", "clientrate", "3", "ops", "40", "steps", "2500"), Share: 2})
 	sh("C04", 90, 1200, runner.Part{Scenario: "simhost", Params: p("pcrash", "12", "fsyield", "300", "torn", "1"), Share: 2},
 		runner.Part{Scenario: "simhost", Params: p("pcrash", "6", "fsyield", "50"), Share: 1})
 	sh("C05", 90, 1200, runner.Part{Scenario: "simhost", Params: p("sessions", "1", "sm", "1", "timeout", "30", "pdrop", "80", "pdup", "30", "ops", "40"), Share: 2},
@@ -81,7 +85,12 @@ func init() {
 		runner.Part{Scenario: "l0/rsmtwin", Params: p("focus", "snapshot"), Share: 2},
 		runner.Part{Scenario: "l0/rsmtwin", Params: p("focus", "snapshot", "enum", "1"), Share: 1, MaxRuns: 1200})
 	sh("C20", 90, 1200, runner.Part{Scenario: "simhost/import", Params: p("pmember", "0"), Share: 2},
-		runner.Part{Scenario: "simhost/import", Params: p("pmember", "12", "hosts", "5"), Share: 2})
+		runner.Part{Scenario: "simhost/import", Params: p("pmember", "12", "hosts", "5"), Share: 2},
+		// the log store side of the import on the stores simhost does not run on (it runs on Tan): what
+		// ImportSnapshot leaves in the store, against the reference store, straight after it and after the reopen
+		runner.Part{Scenario: "l0/logstore", Params: p("store", "pebble-plain", "mode", "model", "importbias", "1"), Share: 1},
+		runner.Part{Scenario: "l0/logstore", Params: p("store", "pebble-batched", "mode", "model", "importbias", "1"), Share: 1},
+		runner.Part{Scenario: "l0/logstore", Params: p("store", "tan", "mode", "model", "importbias", "1"), Share: 1})
 	sh("C11", 120, 1200, runner.Part{Scenario: "simhost", Params: p("smyield", "500", "pstop", "6", "psnapreq", "10"), Share: 2},
 		runner.Part{Scenario: "simhost", Params: p("smyield", "300", "pcrash", "6"), Share: 1})
 	sh("C12", 90, 1200, runner.Part{Scenario: "simhost", Params: p("pstop", "4", "timeout", "30"), Share: 2},
